@@ -310,6 +310,8 @@ def main():
         violations=len(violations),
     )
     vlib.write_json(os.path.join(VERIF, "evidence", f"{pid}.json"), ev)
+    # the replay file carries every line that matters; the raw stream files can be hundreds of MB
+    vlib.cleanup_work(pid, tier)
     print(f"{pid} {tier}: theorems {discharged}/{obligations}, correspondence cases {total_cases} (non-trivial {nontrivial}), "
           f"violations {len(violations)}, known {len(known_hits)}, {ev['wall_s']}s")
     sys.exit(rc)
